@@ -219,10 +219,11 @@ def _check_part(st, label, f, args, viol):
         sc2, vc2 = _call(f, (z, args))
         if sc == "ok" and sc2 == "ok":
             a, b, c = complex(vp), complex(vc), complex(vc2)
-            if np.isfinite(a) and (not np.isfinite(b) or abs(a - b) > 1e-11 * max(1, abs(a))):
-                viol.append(_v(st, "out-of-bounds-read", label, f"{label}: compiled result changes to {vc!r} (interpreter {vp!r}) when the argument vector {args.tolist()} is followed by NaN sentinels: the kernel reads outside the vector it is given"))
+            # same compiled code, same visible array contents: any difference (also NaN vs finite) can only come from memory beyond the vector
+            if np.isfinite(a) and not (b == c or (np.isnan(b) and np.isnan(c))):
+                viol.append(_v(st, "out-of-bounds-read", label, f"{label}: compiled result changes from {vc2!r} to {vc!r} (interpreter {vp!r}) when the argument vector {args.tolist()} is followed in memory by NaN sentinels: the kernel reads outside the vector it is given"))
                 return n
-            if np.isfinite(a) and abs(a - c) > 1e-11 * max(1, abs(a)):
+            if np.isfinite(a) and (not np.isfinite(c) or abs(a - c) > 1e-11 * max(1, abs(a))):
                 viol.append(_v(st, "caller-value", label, f"{label}: with the caller's arguments {args.tolist()} interpreter {vp!r} vs compiled {vc2!r}"))
                 return n
     return n
